@@ -20,6 +20,7 @@ class LemmaVC(Exec):
         self.tier = "quick"
         self.call_depth = 0
         self.assumed = set()
+        self.carves = []
         self.fn = None
         self.mi = None
         self.spec_mode = True
